@@ -42,6 +42,9 @@ use std::collections::BTreeMap;
 
 const BASES: [&str; 8] = ["btc", "eth", "sol", "xrp", "ada", "doge", "ltc", "1inch"];
 const ID_BASE: u64 = 1000;
+/// `Change.amount` value of a change that advances the update id but lists no level: a message
+/// made of such changes only is a depth update with empty bid and ask lists
+const NIL_CHANGE: u8 = 255;
 
 #[derive(Debug, Clone, Copy, PartialEq, Eq, Serialize, Deserialize)]
 pub struct Change {
@@ -87,6 +90,11 @@ pub struct L2Case {
     pub names: u8,
     #[serde(default)]
     pub snapshot_order: u8,
+    /// after the first session the connection is re-initialised (new REST snapshots, possibly
+    /// lagging behind what the long-lived local books already hold) and every instrument's feed is
+    /// delivered again from its new starting point: per-instrument snapshot selectors
+    #[serde(default)]
+    pub second_session: Option<Vec<u16>>,
 }
 
 type Book = (BTreeMap<Decimal, Decimal>, BTreeMap<Decimal, Decimal>);
@@ -119,6 +127,11 @@ fn simulate(v: &Venue, futures: bool) -> Sim {
     let mut states: Vec<Book> = vec![(BTreeMap::new(), BTreeMap::new())];
     for c in &v.changes {
         let mut b = states.last().unwrap().clone();
+        if c.amount == NIL_CHANGE {
+            // the venue's update id advances without a visible level change
+            states.push(b);
+            continue;
+        }
         let side = if c.bid { &mut b.0 } else { &mut b.1 };
         let amount = Decimal::new((c.amount % 6) as i64 * 5, 1);
         if amount.is_zero() {
@@ -142,6 +155,9 @@ fn simulate(v: &Venue, futures: bool) -> Sim {
         let mut asks: BTreeMap<Decimal, Decimal> = BTreeMap::new();
         for id in lo..=hi {
             let c = &v.changes[id - 1];
+            if c.amount == NIL_CHANGE {
+                continue;
+            }
             let p = price_of(c.price);
             let final_amount = if c.bid { states[hi].0.get(&p) } else { states[hi].1.get(&p) }.copied().unwrap_or(Decimal::ZERO);
             if c.bid { bids.insert(p, final_amount); } else { asks.insert(p, final_amount); }
@@ -249,7 +265,7 @@ pub struct BinanceL2Stream;
 
 fn venue() -> impl Strategy<Value = Venue> {
     (
-        prop::collection::vec((any::<bool>(), 0u8..12, prop_oneof![2 => Just(0u8), 5 => 1u8..6]), 0..24),
+        prop::collection::vec((any::<bool>(), 0u8..12, prop_oneof![4 => Just(0u8), 10 => 1u8..6, 3 => Just(NIL_CHANGE)]), 0..24),
         prop::collection::vec(1u8..5, 1..6),
         any::<u16>(),
         prop_oneof![5 => 0i8..4, 1 => -3i8..0],
@@ -292,8 +308,8 @@ impl Check for BinanceL2Stream {
 
 
     fn strategy(_tier: Tier) -> BoxedStrategy<L2Case> {
-        (any::<bool>(), prop::collection::vec(venue(), 2..=3), prop::collection::vec(any::<u8>(), 0..80), prop::option::weighted(0.3, 0u8..20), (0u8..8, 0u8..6))
-            .prop_map(|(futures, venues, interleave, unknown_symbol_after, (names, snapshot_order))| L2Case { futures, venues, interleave, unknown_symbol_after, names, snapshot_order })
+        (any::<bool>(), prop::collection::vec(venue(), 2..=3), prop::collection::vec(any::<u8>(), 0..80), prop::option::weighted(0.3, 0u8..20), (0u8..8, 0u8..6), prop::option::weighted(0.35, prop::collection::vec(any::<u16>(), 3)))
+            .prop_map(|(futures, venues, interleave, unknown_symbol_after, (names, snapshot_order), second_session)| L2Case { futures, venues, interleave, unknown_symbol_after, names, snapshot_order, second_session })
             .boxed()
     }
 
@@ -458,6 +474,72 @@ impl Check for BinanceL2Stream {
             }
         }
 
+        // ---- re-initialisation: a second session over the same long-lived books -----------------------
+        let mut second_session_lagging = false;
+        if let Some(sels) = &case.second_session {
+            let mut snapshots2: Vec<MarketEvent<u8, OrderBookEvent>> = Vec::new();
+            let mut s2: Vec<u64> = Vec::new();
+            for (v, s) in sims.iter().enumerate() {
+                let changes = s.states.len() - 1;
+                let sel = sels.get(v).copied().unwrap_or(0) as usize;
+                let rel = if changes == 0 { 0 } else if futures { 1 + (sel * changes >> 16) } else { sel * (changes + 1) >> 16 };
+                let id = ID_BASE + rel as u64;
+                if id < local[v].sequence {
+                    second_session_lagging = true;
+                }
+                let snap: BinanceOrderBookL2Snapshot = match serde_json::from_str(&snapshot_json(&s.states[rel], id, futures)) {
+                    Ok(x) => x,
+                    Err(e) => bad!("snapshot-parse", "snapshot payload does not parse: {e}"),
+                };
+                let ev: MarketEvent<u8, OrderBookEvent> = MarketEvent::from((exchange, v as u8, snap));
+                // the consumer applies the new snapshot to the book it has kept since the first session
+                let held = local[v].sequence;
+                local[v].update(ev.kind.clone());
+                if local[v].sequence != id || !book_matches(&local[v], &s.states[rel]) {
+                    bad!("resync-snapshot-not-applied", "instrument {v}: after re-initialisation the local book (held sequence {held}) was given the new snapshot at {id}; it now reports sequence {} and {} the venue's book at {id}", local[v].sequence, if book_matches(&local[v], &s.states[rel]) { "matches" } else { "differs from" });
+                }
+                snapshots2.push(ev);
+                s2.push(id);
+            }
+            let (ws_tx2, _ws_rx2) = tokio::sync::mpsc::unbounded_channel();
+            let mut tx2 = if futures {
+                let subs: Vec<Subscription<BinanceFuturesUsd, Keyed<u8, MarketDataInstrument>, OrderBooksL2>> = instruments.iter().map(|k| Subscription::new(BinanceFuturesUsd::default(), k.clone(), OrderBooksL2)).collect();
+                match futures::executor::block_on(BinanceFuturesUsdOrderBooksL2Transformer::init(WebSocketSubMapper::map(&subs).instrument_map, &snapshots2, ws_tx2)) {
+                    Ok(t) => Tx::Futures(t),
+                    Err(e) => bad!("init-failed", "second transformer init failed: {e}"),
+                }
+            } else {
+                let subs: Vec<Subscription<BinanceSpot, Keyed<u8, MarketDataInstrument>, OrderBooksL2>> = instruments.iter().map(|k| Subscription::new(BinanceSpot::default(), k.clone(), OrderBooksL2)).collect();
+                match futures::executor::block_on(BinanceSpotOrderBooksL2Transformer::init(WebSocketSubMapper::map(&subs).instrument_map, &snapshots2, ws_tx2)) {
+                    Ok(t) => Tx::Spot(t),
+                    Err(e) => bad!("init-failed", "second transformer init failed: {e}"),
+                }
+            };
+            // gap-free delivery of every message from one before the first needed one (instrument
+            // by instrument): no error, and the book equals the venue after every admitted message
+            for (v, s) in sims.iter().enumerate() {
+                let needed = if futures { s.msgs.iter().position(|m| m.first <= s2[v] && s2[v] <= m.last) } else { s.msgs.iter().position(|m| m.first <= s2[v] + 1 && s2[v] + 1 <= m.last) };
+                let Some(needed) = needed else { continue };
+                for (j, m) in s.msgs.iter().enumerate().skip(needed.saturating_sub(1)) {
+                    let out = match tx2.feed(&msg_json(&symbols[v], m, futures, 20_000 + j)) {
+                        Ok(o) => o,
+                        Err(e) => bad!("payload-parse", "{e}"),
+                    };
+                    match out.as_slice() {
+                        [] if j < needed => {}
+                        [Ok(ev)] if j >= needed => {
+                            local[v].update(ev.kind.clone());
+                            let rel = (m.last - ID_BASE) as usize;
+                            if local[v].sequence != m.last || !book_matches(&local[v], &s.states[rel]) {
+                                bad!("second-session-wrong-book", "instrument {v}, second session (snapshot {}): after message [U={},u={}] the local book reports sequence {} but differs from the venue's book at {}", s2[v], m.first, m.last, local[v].sequence, m.last);
+                            }
+                        }
+                        other => bad!("second-session-delivery", "instrument {v}, second session (snapshot {}): gap-free message [U={},u={},pu={}] (index {j}, first needed {needed}) produced {other:?}", s2[v], m.first, m.last, m.prev_last),
+                    }
+                }
+            }
+        }
+
         // ---- the connection stream ends at the first terminal error ------------------------------------
         let first_terminal = all_outputs.iter().position(|o| matches!(o, Err(e) if e.is_terminal()));
         let key = StreamKey::new("verif", exchange, None);
@@ -476,6 +558,9 @@ impl Check for BinanceL2Stream {
         let clean_with_stale_inside = (0..n).any(|v| sims[v].clean && sims[v].stale_prefix >= 1 && sims[v].snapshot_inside_message && processed[v] >= 1);
         rep.class(if futures { "futures_rule_set" } else { "spot_rule_set" });
         rep.class_if(errored.iter().any(|e| *e), "sequence_error_raised");
+        rep.class_if(case.second_session.is_some(), "re_initialised_second_session");
+        rep.class_if(second_session_lagging, "second_session_snapshot_behind_local_book");
+        rep.class_if(sims.iter().any(|s| s.msgs.iter().any(|m| m.bids.is_empty() && m.asks.is_empty())), "depth_update_with_empty_level_lists");
         rep.class_if(perturbed_after_progress, "perturbed_after_admitted_message");
         rep.class_if(clean_with_stale_inside, "clean_with_stale_prefix_and_snapshot_inside_message");
         rep.class_if(sims.iter().any(|s| !s.clean), "has_perturbed_instrument");
@@ -487,7 +572,7 @@ impl Check for BinanceL2Stream {
 }
 
 pub fn run(ctx: &mut Ctx) {
-    ctx.rule = "binance_l2_stream: spot or USD-futures rule set; 2..3 instruments on one connection (symbols from a pool of 8, initial snapshots handed over in a generated order), each a simulated venue of 0..23 atomic changes (12-price grid, 30% deletes) grouped into messages of 1..4 changes with absolute amounts; snapshot at any id (inside or at the edge of a message); delivery starts 0..3 messages early (older messages included) or 1..3 late, and is perturbed by drop / duplicate / adjacent swap / replay of an old prefix (half of the venues) or left clean; instruments interleaved; optional message for an unsubscribed symbol. non-trivial = a perturbed instrument with >= 1 message admitted before the break, or a clean instrument with >= 1 stale prefix message and the snapshot strictly inside a message; distinct by hash of the case.".into();
+    ctx.rule = "binance_l2_stream: spot or USD-futures rule set; 2..3 instruments on one connection (symbols from a pool of 8, initial snapshots handed over in a generated order), each a simulated venue of 0..23 atomic changes (12-price grid, 25% deletes, 18% id-only changes so that depth updates with empty level lists occur) grouped into messages of 1..4 changes with absolute amounts; snapshot at any id (inside or at the edge of a message); delivery starts 0..3 messages early (older messages included) or 1..3 late, and is perturbed by drop / duplicate / adjacent swap / replay of an old prefix (half of the venues) or left clean; instruments interleaved; optional message for an unsubscribed symbol; in 35% of the cases the connection is then re-initialised: new snapshots at generated ids (often behind what the long-lived local books hold) are applied to the same books and every feed is delivered again gap-free from its new starting point. non-trivial = a perturbed instrument with >= 1 message admitted before the break, or a clean instrument with >= 1 stale prefix message and the snapshot strictly inside a message; distinct by hash of the case.".into();
     ctx.assumptions = vec![
         "venue behaviour as published: consecutive update ids, diff messages carry absolute quantities, futures messages carry pu = previous message's u; futures snapshots lie inside a message's id range".into(),
         "payloads are synthesised in the venue's documented JSON shape and parsed by the connector's own Deserialize impls".into(),
